@@ -1,4 +1,4 @@
-use crate::engine::{BufferRef, Nullable, QueryPlanner, TypedBufferRef};
+use crate::engine::{BufferRef, EncodingType, Nullable, QueryPlanner, TypedBufferRef};
 
 #[derive(Clone, Copy, Default)]
 pub enum Filter {
@@ -18,7 +18,14 @@ impl Filter {
             Filter::NullableU8(filter) => planner.nullable_filter(plan, filter),
             Filter::Indices(indices) => planner.select(plan, indices),
             // No row passes a filter that is NULL: an empty, non-nullable vector of the column's base type
-            Filter::Null => planner.empty(plan.tag.non_nullable()),
+            Filter::Null => {
+                if plan.tag == EncodingType::Null {
+                    // a column that holds nothing but NULL in this partition stays a (now empty) NULL vector
+                    planner.null_vec(0, EncodingType::Null)
+                } else {
+                    planner.empty(plan.tag.non_nullable())
+                }
+            }
             Filter::None => plan,
         }
     }
